@@ -57,7 +57,7 @@ func ServiceRequest(pdu []byte, ue *tglib.RanUeContext, conn *sctp.SCTPConn, gnb
 		  time.Sleep(1 * time.Second)
 	*/
 
-	pdu = nasTestpacket.GetServiceRequest(nasMessage.ServiceTypeData)
+	pdu = nasTestpacket.GetServiceRequest(nasMessage.ServiceTypeData, uint8(pduId))
 
 	pdu, err := tglib.EncodeNasPduWithSecurity(ue,
 		pdu,
